@@ -163,6 +163,18 @@ CHECKS = {
         "(mean/amax/sum) of per-sample adaptations.",
         "float observables compared at 1e-6; alphabet of 3 letters; the trainer sum-reduction clause is covered by C08",
     ),
+    "C08": (
+        "model_checking", "DESIGN.md §3 C08",
+        "exhaustive pre/post spike-history enumeration (histories as batch, identity batch reduction) on real trainers driven through "
+        "Serial(connection, ExactNeuron), against pair/triplet/eligibility sums computed from the history alone",
+        "STDP, TripletSTDP, MSTDP and MSTDPET x four sign modes x cumulative/nearest x dt {1,.5}: all 4^T pre/post histories of a 1x1 cell "
+        "(T=4 quick, 6 thorough) without delays and with every delay in {0,dt,2dt} in both delayed and delay-frozen modes; all histories of "
+        "length 2 (3) of 2x2 dense, direct-2, lateral-2, conv and rectangular dense cells with every per-synapse delay assignment; after "
+        "every step accumulated pos-neg equals the reference and both parts are non-negative. All pairs of length-2 histories with "
+        "mean/sum/default reductions, scalar and per-sample signals check the reduced update and the weight after update().",
+        "delays on the step grid; time constants fixed per trainer; the 'randomly for larger populations' clause replaced by exhaustive tiny "
+        "populations; tolerance 1e-5",
+    ),
 }
 
 PENDING_REASON = "check not built yet in this session (claimed in DESIGN.md; will move to checks when its exploration exists)"
